@@ -32,11 +32,17 @@
    The inside of handleTCPRequest and of the UDP session manager is C06/C07/C08; here they are
    "may reach the outbound / relay, for their own connection, once they exist".
    pad is the random Hysteria-Padding value the server draws (an oracle input). *)
-From Hy Require Export lib.Bytes.
+(* (imports kept minimal on purpose: the generated cases files load this model in several processes per run) *)
+From Coq Require Export List NArith Bool Strings.Byte.
+Export ListNotations.
 From Hy Require Import gen.ParamsC01.
 Local Open Scope N_scope.
 
 Definition str := list byte.
+
+(* as in lib/Bytes.v *)
+Definition b2n (b : byte) : N := Byte.to_N b.
+Definition n2b (x : N) : byte := match Byte.of_N (x mod 256) with Some b => b | None => x00 end.
 
 Fixpoint str_eqb (a b : str) : bool :=
   match a, b with
